@@ -107,11 +107,11 @@ Proof. exact fix_system_sound. Qed.
 Print Assumptions C08_system_sound_fix.
 
 (** ** [Fix2] = [Fix] + patches/0008 (writer: no alias line for an array) and patches/0009 (reader:
-    uext/sext take a bit-vector operand whatever the amount).  The rejection statement then covers
-    EVERY violation the interpreter reports under a name of its own ([strict_err2] = [strict_err]
-    plus [B2ExtArray]): what is left are [B2Unsupported] and [B2Syntax], which no accepted text
-    can produce on a line the reader looked at either, but for which the reader's own checks (not the
-    interpreter's) are the reference. *)
+    uext/sext take a bit-vector operand whatever the amount), prepared but not applied in /repo.
+    The rejection statement then covers EVERY violation the interpreter reports under a name of its
+    own: [strict_err2] = [strict_err] plus [B2ExtArray].  (The two remaining error classes,
+    [B2Unsupported] and [B2Syntax], are about operators outside the supported set and the lenient
+    number syntax of the reader; they are not violations of the sort discipline.) *)
 Theorem C08_rejects_ill_formed_fix2 :
   forall ls sy ren rho e,
     env_wf rho ->
